@@ -256,7 +256,11 @@ impl CodeFormatter {
                     .spc_if_next()
                     .fmt(failure_message);
             }
-            Token::Braces { block, .. } | Token::Config(block) => {
+            Token::Braces { block, .. } => {
+                // The trivia in front of the opening brace is the token's leading trivia, which was already emitted
+                self.format_block_impl(block, false);
+            }
+            Token::Config(block) => {
                 self.format_block(block);
             }
             Token::ConfigPair { key, eq, value } => {
@@ -455,6 +459,27 @@ impl CodeFormatter {
     }
 
     fn format_block(&mut self, block: &Block) {
+        self.format_block_impl(block, true)
+    }
+
+    fn format_block_impl(&mut self, block: &Block, with_leading_comments: bool) {
+        if with_leading_comments {
+            // Keep any comments that sit between the preceding element and the opening brace
+            if let Some(trivia) = block.lparen.trivia.as_ref() {
+                for triv in &trivia.data {
+                    match triv {
+                        Trivia::CStyle(comment) => {
+                            self.push_type(ChunkType::Comment, comment);
+                        }
+                        Trivia::CppStyle(comment) => {
+                            self.push_type(ChunkType::Comment, comment).push("\n");
+                        }
+                        Trivia::Whitespace(_) | Trivia::NewLine => (),
+                    }
+                }
+            }
+        }
+
         match self.options.braces.position {
             BracePosition::SameLine => self.push(&block.lparen.data).push("\n"),
             BracePosition::NewLine => self.push("\n").push(&block.lparen.data).push("\n"),
@@ -614,7 +639,8 @@ impl Formattable for &InterpolatedString {
                     formatter.push(s);
                 }
                 InterpolatedStringItem::IdentifierPath(path) => {
-                    formatter.push('{').push(&path.data).push('}');
+                    // Verbatim, including anything between the brace and the path: this is the inside of a string literal
+                    formatter.push('{').push(path).push('}');
                 }
             }
         }
